@@ -2,21 +2,28 @@
   CRProofs.RefsFrame — the *frame* vocabulary of property C10 ("all relations between remaining elements are
   untouched, every element … with unchanged content") and its lemmas.
 
-  `Frame n n'` : every element of `n'` is an element of `n` with the same id and content, and each of its relations is
-  the old relation intersected with the ids that are present in `n'` (as sets; order / multiplicity is not claimed).
+  `Frame n n'` : every element of `n'` is an element of `n` with the same id and content; no relation of it has a
+  member it did not have in `n`, and every old member that names an element still present in `n'` is still a member
+  (as sets; order / multiplicity is not claimed).  No hypothesis on `n` is needed: a reference that was dangling
+  already in `n` may stay or go, the relation *between remaining elements* is what is fixed.  When `n'` has no dangling
+  reference this is "new relation = old relation ∩ remaining ids" (`SetRestr.iff`).
+  `left_of` of an incoming element is not one of the relations the property lists; the frame only records that the
+  operations copy it verbatim (`IncFrame.leftOf`) — it can therefore name an incoming element that a cut-out dropped
+  (CRProps.C10 `C10_witness_leftOf_dangles`).
 -/
 import CRModel.Refs
 import CRProofs.Refs
 
 namespace CR.Refs
 
-/-- `new = old ∩ S` as sets. -/
-def SetRestr (S : Id → Prop) (old new : List Id) : Prop := ∀ a, a ∈ new ↔ a ∈ old ∧ S a
+/-- nothing is added, and every old member that lies in `S` (the ids still present) is kept. -/
+def SetRestr (S : Id → Prop) (old new : List Id) : Prop := (∀ a ∈ new, a ∈ old) ∧ (∀ a ∈ old, S a → a ∈ new)
 
-/-- an optional reference survives iff its target is in `S`. -/
-def OptRestr (S : Id → Prop) (old new : Option Id) : Prop := ∀ a, new = some a ↔ old = some a ∧ S a
+/-- an optional reference is not re-targeted, and it survives if its target is in `S`. -/
+def OptRestr (S : Id → Prop) (old new : Option Id) : Prop :=
+  (∀ a, new = some a → old = some a) ∧ (∀ a, old = some a → S a → new = some a)
 
-/-- `None` stays `None`, a set is intersected with `S`. -/
+/-- `None` stays `None`, a set is restricted as in `SetRestr`. -/
 def OptSetRestr (S : Id → Prop) : Option (List Id) → Option (List Id) → Prop
   | none, none => True
   | some o, some n => SetRestr S o n
@@ -64,59 +71,55 @@ structure Frame (n n' : Net) : Prop where
 
 /-! ### sets -/
 
-theorem SetRestr.refl {S : Id → Prop} {xs : List Id} (h : ∀ a ∈ xs, S a) : SetRestr S xs xs :=
-  fun a => ⟨fun ha => ⟨ha, h a ha⟩, fun ha => ha.1⟩
+theorem SetRestr.refl {S : Id → Prop} {xs : List Id} : SetRestr S xs xs := ⟨fun _ h => h, fun _ h _ => h⟩
 
 theorem SetRestr.trans {S1 S2 : Id → Prop} {x y z : List Id} (hsub : ∀ a, S2 a → S1 a)
-    (h1 : SetRestr S1 x y) (h2 : SetRestr S2 y z) : SetRestr S2 x z := by
-  intro a
-  rw [h2 a, h1 a]
-  exact ⟨fun h => ⟨h.1.1, h.2⟩, fun h => ⟨⟨h.1, hsub a h.2⟩, h.2⟩⟩
+    (h1 : SetRestr S1 x y) (h2 : SetRestr S2 y z) : SetRestr S2 x z :=
+  ⟨fun a h => h1.1 a (h2.1 a h), fun a ha hs => h2.2 a (h1.2 a ha (hsub a hs)) hs⟩
+
+/-- when the new relation has no member outside `S` (no dangling reference afterwards) it is exactly `old ∩ S` -/
+theorem SetRestr.iff {S : Id → Prop} {old new : List Id} (h : SetRestr S old new) (hnew : ∀ a ∈ new, S a) (a : Id) :
+    a ∈ new ↔ a ∈ old ∧ S a :=
+  ⟨fun ha => ⟨h.1 a ha, hnew a ha⟩, fun ha => h.2 a ha.1 ha.2⟩
 
 theorem SetRestr.keepIn {S : Id → Prop} {P : Id → Bool} (hP : ∀ a, P a = true ↔ S a) (xs : List Id) :
-    SetRestr S xs (keepIn P xs) := fun a => by rw [mem_keepIn, hP]
+    SetRestr S xs (keepIn P xs) :=
+  ⟨fun _ h => (mem_keepIn.1 h).1, fun a ha hs => mem_keepIn.2 ⟨ha, (hP a).2 hs⟩⟩
 
 theorem SetRestr.keepInL {S : Id → Prop} {P : Id → Bool} (hP : ∀ a, P a = true ↔ S a) (xs : List Id) :
-    SetRestr S xs (keepInL P xs) := fun a => by rw [mem_keepInL, hP]
+    SetRestr S xs (keepInL P xs) :=
+  ⟨fun _ h => (mem_keepInL.1 h).1, fun a ha hs => mem_keepInL.2 ⟨ha, (hP a).2 hs⟩⟩
 
-theorem OptRestr.refl {S : Id → Prop} {o : Option Id} (h : ∀ a ∈ o.toList, S a) : OptRestr S o o :=
-  fun a => ⟨fun ha => ⟨ha, h a (by simp [ha])⟩, fun ha => ha.1⟩
+theorem OptRestr.refl {S : Id → Prop} {o : Option Id} : OptRestr S o o := ⟨fun _ h => h, fun _ h _ => h⟩
 
 theorem OptRestr.trans {S1 S2 : Id → Prop} {x y z : Option Id} (hsub : ∀ a, S2 a → S1 a)
-    (h1 : OptRestr S1 x y) (h2 : OptRestr S2 y z) : OptRestr S2 x z := by
-  intro a
-  rw [h2 a, h1 a]
-  exact ⟨fun h => ⟨h.1.1, h.2⟩, fun h => ⟨⟨h.1, hsub a h.2⟩, h.2⟩⟩
+    (h1 : OptRestr S1 x y) (h2 : OptRestr S2 y z) : OptRestr S2 x z :=
+  ⟨fun a h => h1.1 a (h2.1 a h), fun a ha hs => h2.2 a (h1.2 a ha (hsub a hs)) hs⟩
 
 theorem OptRestr.filter {S : Id → Prop} {P : Id → Bool} (hP : ∀ a, P a = true ↔ S a) (o : Option Id) :
     OptRestr S o (o.filter P) := by
-  intro a
-  rw [← hP]
   cases o with
-  | none => simp
+  | none => exact OptRestr.refl
   | some b =>
     by_cases h : P b = true
     · have e1 : (some b).filter P = some b := by simp [Option.filter, h]
-      rw [e1]
-      constructor
-      · intro e; cases e; exact ⟨rfl, h⟩
-      · intro e; exact e.1
+      rw [e1]; exact OptRestr.refl
     · have e1 : (some b).filter P = none := by simp [Option.filter, h]
       rw [e1]
-      constructor
-      · intro e; cases e
-      · rintro ⟨e, hp⟩; cases e; exact absurd hp h
+      refine ⟨fun a e => (by cases e), fun a e hs => ?_⟩
+      cases e
+      exact absurd ((hP b).2 hs) h
 
 theorem OptRestr.isSome {S : Id → Prop} {o o' : Option Id} (h : OptRestr S o o') (hs : o'.isSome = true) :
     o.isSome = true := by
   cases o' with
   | none => cases hs
-  | some a => rw [((h a).1 rfl).1]; rfl
+  | some a => rw [h.1 a rfl]; rfl
 
-theorem OptSetRestr.refl {S : Id → Prop} {o : Option (List Id)} (h : ∀ a ∈ o.getD [], S a) : OptSetRestr S o o := by
+theorem OptSetRestr.refl {S : Id → Prop} {o : Option (List Id)} : OptSetRestr S o o := by
   cases o with
   | none => trivial
-  | some r => exact SetRestr.refl h
+  | some r => exact SetRestr.refl
 
 theorem OptSetRestr.trans {S1 S2 : Id → Prop} {x y z : Option (List Id)} (hsub : ∀ a, S2 a → S1 a)
     (h1 : OptSetRestr S1 x y) (h2 : OptSetRestr S2 y z) : OptSetRestr S2 x z := by
@@ -131,40 +134,29 @@ theorem OptSetRestr.map_keepIn {S : Id → Prop} {P : Id → Bool} (hP : ∀ a, 
 
 /-! ### stop lines -/
 
-theorem StopFrame.refl {SS ST : Id → Prop} {l : Lanelet} (hs : ∀ a ∈ l.stopS, SS a) (ht : ∀ a ∈ l.stopT, ST a) :
-    StopFrame SS ST l.stop l.stop := by
-  unfold Lanelet.stopS StopLine.srefs at hs
-  unfold Lanelet.stopT StopLine.trefs at ht
-  cases h : l.stop with
+theorem StopFrame.refl {SS ST : Id → Prop} {x : Option StopLine} : StopFrame SS ST x x := by
+  cases x with
   | none => trivial
-  | some st =>
-    rw [h] at hs ht
-    exact ⟨OptSetRestr.refl hs, OptSetRestr.refl ht⟩
+  | some st => exact ⟨OptSetRestr.refl, OptSetRestr.refl⟩
 
 theorem StopFrame.trans {S1 S2 T1 T2 : Id → Prop} {x y z : Option StopLine} (hs : ∀ a, S2 a → S1 a)
     (ht : ∀ a, T2 a → T1 a) (h1 : StopFrame S1 T1 x y) (h2 : StopFrame S2 T2 y z) : StopFrame S2 T2 x z := by
   cases x <;> cases y <;> cases z <;> simp only [StopFrame] at h1 h2 ⊢
   exact ⟨OptSetRestr.trans hs h1.1 h2.1, OptSetRestr.trans ht h1.2 h2.2⟩
 
-theorem StopFrame.cleanS {SS ST : Id → Prop} {P : Id → Bool} (hP : ∀ a, P a = true ↔ SS a) (l : Lanelet)
-    (ht : ∀ a ∈ l.stopT, ST a) : StopFrame SS ST l.stop (l.cleanS P).stop := by
-  unfold Lanelet.stopT StopLine.trefs at ht
+theorem StopFrame.cleanS {SS ST : Id → Prop} {P : Id → Bool} (hP : ∀ a, P a = true ↔ SS a) (l : Lanelet) :
+    StopFrame SS ST l.stop (l.cleanS P).stop := by
   unfold Lanelet.cleanS
   cases h : l.stop with
   | none => trivial
-  | some st =>
-    rw [h] at ht
-    exact ⟨OptSetRestr.map_keepIn hP _, OptSetRestr.refl ht⟩
+  | some st => exact ⟨OptSetRestr.map_keepIn hP _, OptSetRestr.refl⟩
 
-theorem StopFrame.cleanT {SS ST : Id → Prop} {P : Id → Bool} (hP : ∀ a, P a = true ↔ ST a) (l : Lanelet)
-    (hs : ∀ a ∈ l.stopS, SS a) : StopFrame SS ST l.stop (l.cleanT P).stop := by
-  unfold Lanelet.stopS StopLine.srefs at hs
+theorem StopFrame.cleanT {SS ST : Id → Prop} {P : Id → Bool} (hP : ∀ a, P a = true ↔ ST a) (l : Lanelet) :
+    StopFrame SS ST l.stop (l.cleanT P).stop := by
   unfold Lanelet.cleanT
   cases h : l.stop with
   | none => trivial
-  | some st =>
-    rw [h] at hs
-    exact ⟨OptSetRestr.refl hs, OptSetRestr.map_keepIn hP _⟩
+  | some st => exact ⟨OptSetRestr.refl, OptSetRestr.map_keepIn hP _⟩
 
 /-! ### lanelets -/
 
@@ -183,19 +175,18 @@ theorem mem_lrefs {l : Lanelet} {a : Id} :
     · exact Or.inl (Or.inr h)
     · exact Or.inr h
 
-theorem LaneletFrame.refl {SL SS ST : Id → Prop} {l : Lanelet} (hl : ∀ a ∈ l.lrefs, SL a)
-    (hs : ∀ a ∈ l.signs ++ l.stopS, SS a) (ht : ∀ a ∈ l.lights ++ l.stopT, ST a) : LaneletFrame SL SS ST l l where
+theorem LaneletFrame.refl {SL SS ST : Id → Prop} {l : Lanelet} : LaneletFrame SL SS ST l l where
   id := rfl
   content := rfl
-  pred := SetRestr.refl fun a ha => hl a (mem_lrefs.2 (Or.inl ha))
-  succ := SetRestr.refl fun a ha => hl a (mem_lrefs.2 (Or.inr (Or.inl ha)))
-  adjL := OptRestr.refl fun a ha => hl a (mem_lrefs.2 (Or.inr (Or.inr (Or.inl (by simpa using ha)))))
-  adjR := OptRestr.refl fun a ha => hl a (mem_lrefs.2 (Or.inr (Or.inr (Or.inr (by simpa using ha)))))
+  pred := SetRestr.refl
+  succ := SetRestr.refl
+  adjL := OptRestr.refl
+  adjR := OptRestr.refl
   adjLSame := fun _ => rfl
   adjRSame := fun _ => rfl
-  signs := SetRestr.refl fun a ha => hs a (List.mem_append_left _ ha)
-  lights := SetRestr.refl fun a ha => ht a (List.mem_append_left _ ha)
-  stop := StopFrame.refl (fun a ha => hs a (List.mem_append_right _ ha)) (fun a ha => ht a (List.mem_append_right _ ha))
+  signs := SetRestr.refl
+  lights := SetRestr.refl
+  stop := StopFrame.refl
 
 theorem LaneletFrame.trans {L1 S1 T1 L2 S2 T2 : Id → Prop} {x y z : Lanelet} (hl : ∀ a, L2 a → L1 a)
     (hs : ∀ a, S2 a → S1 a) (ht : ∀ a, T2 a → T1 a) (h1 : LaneletFrame L1 S1 T1 x y) (h2 : LaneletFrame L2 S2 T2 y z) :
@@ -212,8 +203,7 @@ theorem LaneletFrame.trans {L1 S1 T1 L2 S2 T2 : Id → Prop} {x y z : Lanelet} (
   lights := SetRestr.trans ht h1.lights h2.lights
   stop := StopFrame.trans hs ht h1.stop h2.stop
 
-theorem LaneletFrame.cleanL {SL SS ST : Id → Prop} {P : Id → Bool} (hP : ∀ a, P a = true ↔ SL a) (l : Lanelet)
-    (hs : ∀ a ∈ l.signs ++ l.stopS, SS a) (ht : ∀ a ∈ l.lights ++ l.stopT, ST a) :
+theorem LaneletFrame.cleanL {SL SS ST : Id → Prop} {P : Id → Bool} (hP : ∀ a, P a = true ↔ SL a) (l : Lanelet) :
     LaneletFrame SL SS ST l (l.cleanL P) where
   id := rfl
   content := rfl
@@ -223,47 +213,42 @@ theorem LaneletFrame.cleanL {SL SS ST : Id → Prop} {P : Id → Bool} (hP : ∀
   adjR := OptRestr.filter hP _
   adjLSame := fun h => by rw [Lanelet.cleanL_adjLSame]; rw [Lanelet.cleanL_adjL] at h; simp [h]
   adjRSame := fun h => by rw [Lanelet.cleanL_adjRSame]; rw [Lanelet.cleanL_adjR] at h; simp [h]
-  signs := SetRestr.refl fun a ha => hs a (List.mem_append_left _ ha)
-  lights := SetRestr.refl fun a ha => ht a (List.mem_append_left _ ha)
-  stop := StopFrame.refl (fun a ha => hs a (List.mem_append_right _ ha)) (fun a ha => ht a (List.mem_append_right _ ha))
+  signs := SetRestr.refl
+  lights := SetRestr.refl
+  stop := StopFrame.refl
 
-theorem LaneletFrame.cleanS {SL SS ST : Id → Prop} {P : Id → Bool} (hP : ∀ a, P a = true ↔ SS a) (l : Lanelet)
-    (hl : ∀ a ∈ l.lrefs, SL a) (ht : ∀ a ∈ l.lights ++ l.stopT, ST a) : LaneletFrame SL SS ST l (l.cleanS P) where
+theorem LaneletFrame.cleanS {SL SS ST : Id → Prop} {P : Id → Bool} (hP : ∀ a, P a = true ↔ SS a) (l : Lanelet) :
+    LaneletFrame SL SS ST l (l.cleanS P) where
   id := rfl
   content := rfl
-  pred := SetRestr.refl fun a ha => hl a (mem_lrefs.2 (Or.inl ha))
-  succ := SetRestr.refl fun a ha => hl a (mem_lrefs.2 (Or.inr (Or.inl ha)))
-  adjL := OptRestr.refl fun a ha => hl a (mem_lrefs.2 (Or.inr (Or.inr (Or.inl (by simpa using ha)))))
-  adjR := OptRestr.refl fun a ha => hl a (mem_lrefs.2 (Or.inr (Or.inr (Or.inr (by simpa using ha)))))
+  pred := SetRestr.refl
+  succ := SetRestr.refl
+  adjL := OptRestr.refl
+  adjR := OptRestr.refl
   adjLSame := fun _ => rfl
   adjRSame := fun _ => rfl
   signs := SetRestr.keepIn hP _
-  lights := SetRestr.refl fun a ha => ht a (List.mem_append_left _ ha)
-  stop := StopFrame.cleanS hP l (fun a ha => ht a (List.mem_append_right _ ha))
+  lights := SetRestr.refl
+  stop := StopFrame.cleanS hP l
 
-theorem LaneletFrame.cleanT {SL SS ST : Id → Prop} {P : Id → Bool} (hP : ∀ a, P a = true ↔ ST a) (l : Lanelet)
-    (hl : ∀ a ∈ l.lrefs, SL a) (hs : ∀ a ∈ l.signs ++ l.stopS, SS a) : LaneletFrame SL SS ST l (l.cleanT P) where
+theorem LaneletFrame.cleanT {SL SS ST : Id → Prop} {P : Id → Bool} (hP : ∀ a, P a = true ↔ ST a) (l : Lanelet) :
+    LaneletFrame SL SS ST l (l.cleanT P) where
   id := rfl
   content := rfl
-  pred := SetRestr.refl fun a ha => hl a (mem_lrefs.2 (Or.inl ha))
-  succ := SetRestr.refl fun a ha => hl a (mem_lrefs.2 (Or.inr (Or.inl ha)))
-  adjL := OptRestr.refl fun a ha => hl a (mem_lrefs.2 (Or.inr (Or.inr (Or.inl (by simpa using ha)))))
-  adjR := OptRestr.refl fun a ha => hl a (mem_lrefs.2 (Or.inr (Or.inr (Or.inr (by simpa using ha)))))
+  pred := SetRestr.refl
+  succ := SetRestr.refl
+  adjL := OptRestr.refl
+  adjR := OptRestr.refl
   adjLSame := fun _ => rfl
   adjRSame := fun _ => rfl
-  signs := SetRestr.refl fun a ha => hs a (List.mem_append_left _ ha)
+  signs := SetRestr.refl
   lights := SetRestr.keepIn hP _
-  stop := StopFrame.cleanT hP l (fun a ha => hs a (List.mem_append_right _ ha))
+  stop := StopFrame.cleanT hP l
 
 /-! ### intersections -/
 
-theorem IncFrame.refl {S : Id → Prop} {k : Incoming} (h : ∀ a ∈ k.lrefs, S a) : IncFrame S k k where
-  id := rfl
-  leftOf := rfl
-  inc := SetRestr.refl fun a ha => h a (by simp [Incoming.lrefs, ha])
-  right := SetRestr.refl fun a ha => h a (by simp [Incoming.lrefs, ha])
-  straight := SetRestr.refl fun a ha => h a (by simp [Incoming.lrefs, ha])
-  left := SetRestr.refl fun a ha => h a (by simp [Incoming.lrefs, ha])
+theorem IncFrame.refl {S : Id → Prop} {k : Incoming} : IncFrame S k k :=
+  ⟨rfl, rfl, SetRestr.refl, SetRestr.refl, SetRestr.refl, SetRestr.refl⟩
 
 theorem IncFrame.trans {S1 S2 : Id → Prop} {x y z : Incoming} (hsub : ∀ a, S2 a → S1 a) (h1 : IncFrame S1 x y)
     (h2 : IncFrame S2 y z) : IncFrame S2 x z where
@@ -288,11 +273,8 @@ theorem IncFrame.cut {S : Id → Prop} {P : Id → Bool} (hP : ∀ a, P a = true
   rw [Incoming.cut_some h]
   exact ⟨rfl, rfl, SetRestr.keepIn hP _, SetRestr.keepIn hP _, SetRestr.keepIn hP _, SetRestr.keepIn hP _⟩
 
-theorem InterFrame.refl {S : Id → Prop} {i : Intersection} (h : ∀ a ∈ i.lrefs, S a) : InterFrame S i i where
-  id := rfl
-  crossings := SetRestr.refl fun a ha => h a (by simp [Intersection.lrefs, ha])
-  incs := fun k hk => ⟨k, hk, IncFrame.refl fun a ha => h a (by
-    simp only [Intersection.lrefs, List.mem_append, List.mem_flatMap]; exact Or.inr ⟨k, hk, ha⟩)⟩
+theorem InterFrame.refl {S : Id → Prop} {i : Intersection} : InterFrame S i i :=
+  ⟨rfl, SetRestr.refl, fun k hk => ⟨k, hk, IncFrame.refl⟩⟩
 
 theorem InterFrame.trans {S1 S2 : Id → Prop} {x y z : Intersection} (hsub : ∀ a, S2 a → S1 a)
     (h1 : InterFrame S1 x y) (h2 : InterFrame S2 y z) : InterFrame S2 x z where
@@ -322,14 +304,14 @@ theorem InterFrame.cut {S : Id → Prop} {P : Id → Bool} (hP : ∀ a, P a = tr
 
 /-! ### networks -/
 
-theorem Frame.refl {n : Net} (h : NoDangling n) : Frame n n where
+theorem Frame.refl {n : Net} : Frame n n where
   lsub := fun _ h => h
   ssub := fun _ h => h
   tsub := fun _ h => h
-  lan := fun l hl => ⟨l, hl, LaneletFrame.refl (h.1 l hl) (h.2.1 l hl) (h.2.2.1 l hl)⟩
+  lan := fun l hl => ⟨l, hl, LaneletFrame.refl⟩
   sign := fun _ h => h
   light := fun _ h => h
-  inter := fun i hi => ⟨i, hi, InterFrame.refl (h.2.2.2 i hi)⟩
+  inter := fun i hi => ⟨i, hi, InterFrame.refl⟩
 
 theorem Frame.trans {a b c : Net} (h1 : Frame a b) (h2 : Frame b c) : Frame a c where
   lsub := fun x hx => h1.lsub x (h2.lsub x hx)
@@ -346,12 +328,11 @@ theorem Frame.trans {a b c : Net} (h1 : Frame a b) (h2 : Frame b c) : Frame a c 
     obtain ⟨i, hi, f1⟩ := h1.inter i' hi'
     exact ⟨i, hi, InterFrame.trans h2.lsub f1 f2⟩
 
-/-! ### the frame of every network-level operation -/
+/-! ### the frame of every network-level operation (no hypothesis on the network) -/
 
 /-- `cleanup_lanelet_references` after the lanelets / signs / lights have been reduced and the intersections re-built. -/
 theorem frame_cleanupLaneletRefs_of {n n1 : Net} (S0 : Id → Prop) (hS0 : ∀ a ∈ n1.lids, S0 a)
     (hl : ∀ l ∈ n1.lanelets, l ∈ n.lanelets) (hsg : ∀ e ∈ n1.signs, e ∈ n.signs) (htl : ∀ e ∈ n1.lights, e ∈ n.lights)
-    (hS1 : SignOK n1) (hT1 : LightOK n1)
     (hi : ∀ i1 ∈ n1.inters, ∃ i ∈ n.inters, InterFrame S0 i i1) : Frame n n1.cleanupLaneletRefs := by
   have hP : ∀ a, (fun a => n1.lids.contains a) a = true ↔ a ∈ n1.cleanupLaneletRefs.lids := by
     intro a; rw [Net.cleanupLaneletRefs_lids]; simp
@@ -369,7 +350,7 @@ theorem frame_cleanupLaneletRefs_of {n n1 : Net} (S0 : Id → Prop) (hS0 : ∀ a
   · intro l' hl'
     simp only [Net.cleanupLaneletRefs, List.mem_map] at hl'
     obtain ⟨l, hl1, rfl⟩ := hl'
-    exact ⟨l, hl l hl1, LaneletFrame.cleanL hP l (hS1 l hl1) (hT1 l hl1)⟩
+    exact ⟨l, hl l hl1, LaneletFrame.cleanL hP l⟩
   · intro i' hi'
     simp only [Net.cleanupLaneletRefs, List.mem_map] at hi'
     obtain ⟨i1, hi1, rfl⟩ := hi'
@@ -379,26 +360,24 @@ theorem frame_cleanupLaneletRefs_of {n n1 : Net} (S0 : Id → Prop) (hS0 : ∀ a
     rw [Net.cleanupLaneletRefs_lids] at ha
     exact hS0 a ha
 
-theorem frame_removeLanelet {n : Net} (h : NoDangling n) (x : Id) : Frame n (n.removeLanelet x) := by
+theorem frame_removeLanelet (n : Net) (x : Id) : Frame n (n.removeLanelet x) := by
   unfold Net.removeLanelet
   split
   · refine frame_cleanupLaneletRefs_of (· ∈ n.lids) ?_ (fun l hl => (List.mem_filter.1 hl).1) (fun _ h => h)
-      (fun _ h => h) ?_ ?_ (fun i hi => ⟨i, hi, InterFrame.refl (h.2.2.2 i hi)⟩)
-    · intro a ha
-      obtain ⟨l, hl1, rfl⟩ := List.mem_map.1 ha
-      exact List.mem_map.2 ⟨l, (List.mem_filter.1 hl1).1, rfl⟩
-    · intro l hl a ha; exact h.2.1 l (List.mem_filter.1 hl).1 a ha
-    · intro l hl a ha; exact h.2.2.1 l (List.mem_filter.1 hl).1 a ha
-  · exact Frame.refl h
+      (fun _ h => h) (fun i hi => ⟨i, hi, InterFrame.refl⟩)
+    intro a ha
+    obtain ⟨l, hl1, rfl⟩ := List.mem_map.1 ha
+    exact List.mem_map.2 ⟨l, (List.mem_filter.1 hl1).1, rfl⟩
+  · exact Frame.refl
 
-theorem frame_removeSign {n : Net} (h : NoDangling n) (x : Id) : Frame n (n.removeSign x) := by
+theorem frame_removeSign (n : Net) (x : Id) : Frame n (n.removeSign x) := by
   unfold Net.removeSign
   split
   · have hP : ∀ a, (fun a => (({ n with signs := n.signs.filter (fun s => s.1 != x) } : Net).sids).contains a) a = true ↔
         a ∈ (({ n with signs := n.signs.filter (fun s => s.1 != x) } : Net).cleanupSignRefs).sids := by
       intro a; rw [Net.cleanupSignRefs_sids]; simp
     refine ⟨?_, ?_, fun _ h => h, ?_, fun e he => (List.mem_filter.1 he).1, fun _ h => h,
-      fun i hi => ⟨i, hi, InterFrame.refl ?_⟩⟩
+      fun i hi => ⟨i, hi, InterFrame.refl⟩⟩
     · intro a ha; rw [Net.cleanupSignRefs_lids] at ha; exact ha
     · intro a ha
       obtain ⟨e, he, rfl⟩ := List.mem_map.1 ha
@@ -406,22 +385,16 @@ theorem frame_removeSign {n : Net} (h : NoDangling n) (x : Id) : Frame n (n.remo
     · intro l' hl'
       simp only [Net.cleanupSignRefs, List.mem_map] at hl'
       obtain ⟨l, hl1, rfl⟩ := hl'
-      refine ⟨l, hl1, LaneletFrame.cleanS hP l ?_ (h.2.2.1 l hl1)⟩
-      intro a ha
-      rw [Net.cleanupSignRefs_lids]
-      exact h.1 l hl1 a ha
-    · intro a ha
-      rw [Net.cleanupSignRefs_lids]
-      exact h.2.2.2 i hi a ha
-  · exact Frame.refl h
+      exact ⟨l, hl1, LaneletFrame.cleanS hP l⟩
+  · exact Frame.refl
 
-theorem frame_removeLight {n : Net} (h : NoDangling n) (x : Id) : Frame n (n.removeLight x) := by
+theorem frame_removeLight (n : Net) (x : Id) : Frame n (n.removeLight x) := by
   unfold Net.removeLight
   have hP : ∀ a, (fun a => (({ n with lights := n.lights.filter (fun s => s.1 != x) } : Net).tids).contains a) a = true ↔
       a ∈ (({ n with lights := n.lights.filter (fun s => s.1 != x) } : Net).cleanupLightRefs).tids := by
     intro a; rw [Net.cleanupLightRefs_tids]; simp
   refine ⟨?_, fun _ h => h, ?_, ?_, fun _ h => h, fun e he => (List.mem_filter.1 he).1,
-    fun i hi => ⟨i, hi, InterFrame.refl ?_⟩⟩
+    fun i hi => ⟨i, hi, InterFrame.refl⟩⟩
   · intro a ha; rw [Net.cleanupLightRefs_lids] at ha; exact ha
   · intro a ha
     obtain ⟨e, he, rfl⟩ := List.mem_map.1 ha
@@ -429,25 +402,17 @@ theorem frame_removeLight {n : Net} (h : NoDangling n) (x : Id) : Frame n (n.rem
   · intro l' hl'
     simp only [Net.cleanupLightRefs, List.mem_map] at hl'
     obtain ⟨l, hl1, rfl⟩ := hl'
-    refine ⟨l, hl1, LaneletFrame.cleanT hP l ?_ (h.2.1 l hl1)⟩
-    intro a ha
-    rw [Net.cleanupLightRefs_lids]
-    exact h.1 l hl1 a ha
-  · intro a ha
-    rw [Net.cleanupLightRefs_lids]
-    exact h.2.2.2 i hi a ha
+    exact ⟨l, hl1, LaneletFrame.cleanT hP l⟩
 
-theorem frame_removeInter {n : Net} (h : NoDangling n) (x : Id) : Frame n (n.removeInter x) :=
-  ⟨fun _ h => h, fun _ h => h, fun _ h => h,
-    fun l hl => ⟨l, hl, LaneletFrame.refl (h.1 l hl) (h.2.1 l hl) (h.2.2.1 l hl)⟩, fun _ h => h, fun _ h => h,
-    fun i hi => ⟨i, (List.mem_filter.1 hi).1, InterFrame.refl (h.2.2.2 i (List.mem_filter.1 hi).1)⟩⟩
+theorem frame_removeInter (n : Net) (x : Id) : Frame n (n.removeInter x) :=
+  ⟨fun _ h => h, fun _ h => h, fun _ h => h, fun l hl => ⟨l, hl, LaneletFrame.refl⟩, fun _ h => h, fun _ h => h,
+    fun i hi => ⟨i, (List.mem_filter.1 hi).1, InterFrame.refl⟩⟩
 
-theorem frame_cutOut {n n' : Net} {keep : Id → Bool} (hw : Wf n) (h : n.cutOut keep true = .ok n') : Frame n n' := by
-  obtain ⟨hs, ht, rfl⟩ := cutOut_ok h
+theorem frame_cutOut {n n' : Net} {keep : Id → Bool} (h : n.cutOut keep true = .ok n') : Frame n n' := by
+  obtain ⟨_, _, rfl⟩ := cutOut_ok h
   simp only [if_true]
   refine frame_cleanupLaneletRefs_of (· ∈ (n.cutBase keep).lids) (fun _ h => h)
-    (fun l hl => (List.mem_filter.1 hl).1) (fun e he => (List.mem_filter.1 he).1) (fun e he => (List.mem_filter.1 he).1)
-    (signOK_cutBase hw hs) (lightOK_cutBase hw ht) ?_
+    (fun l hl => (List.mem_filter.1 hl).1) (fun e he => (List.mem_filter.1 he).1) (fun e he => (List.mem_filter.1 he).1) ?_
   intro i1 hi1
   simp only [Net.cutBase, List.mem_filterMap] at hi1
   obtain ⟨i, hi, hc⟩ := hi1
@@ -465,7 +430,7 @@ theorem fromList_true_eq (n : Net) (sel : List Id) :
   simp [Net.fromList, Net.cleanupSignRefs, Net.cleanupLightRefs, Net.cleanupLaneletRefs, Net.lids, Net.sids, Net.tids,
     List.map_map, Function.comp_def]
 
-theorem frame_fromList {n : Net} (h : NoDangling n) (sel : List Id) : Frame n (n.fromList sel true) := by
+theorem frame_fromList (n : Net) (sel : List Id) : Frame n (n.fromList sel true) := by
   rw [fromList_true_eq]
   generalize hb : addLanelets [] (sel.filterMap n.findLanelet) = base
   have hbase : ∀ l ∈ base, l ∈ n.lanelets := fun l hl => (fromList_base_mem (hb ▸ hl)).1
@@ -483,26 +448,19 @@ theorem frame_fromList {n : Net} (h : NoDangling n) (sel : List Id) : Frame n (n
     obtain ⟨l, hl, rfl⟩ := List.mem_map.1 hl'
     refine ⟨l, hbase l hl, ?_⟩
     rw [hlids (fun l => Lanelet.cleanS _ (Lanelet.cleanT _ (Lanelet.cleanL _ l))) (fun l => rfl)]
-    have f1 : LaneletFrame (· ∈ base.map (·.id)) (· ∈ n.sids) (· ∈ n.tids) l
-        (l.cleanL fun a => (base.map (·.id)).contains a) :=
-      LaneletFrame.cleanL (by intro a; simp) l (h.2.1 l (hbase l hl)) (h.2.2.1 l (hbase l hl))
-    have f2 : LaneletFrame (· ∈ base.map (·.id)) (· ∈ n.sids) (· ∈ ([] : List Id))
+    have f1 : LaneletFrame (· ∈ base.map (·.id)) (· ∈ ([] : List Id)) (· ∈ ([] : List Id)) l
+        (l.cleanL fun a => (base.map (·.id)).contains a) := LaneletFrame.cleanL (by intro a; simp) l
+    have f2 : LaneletFrame (· ∈ base.map (·.id)) (· ∈ ([] : List Id)) (· ∈ ([] : List Id))
         (l.cleanL fun a => (base.map (·.id)).contains a)
         ((l.cleanL fun a => (base.map (·.id)).contains a).cleanT fun a => ([] : List Id).contains a) :=
       LaneletFrame.cleanT (by intro a; simp) _
-        (fun a ha => contains_eq_true_iff.1 ((Lanelet.mem_cleanL_lrefs _ l).1 ha).2)
-        (fun a ha => h.2.1 l (hbase l hl) a (by simpa using ha))
     have f3 : LaneletFrame (· ∈ base.map (·.id)) (· ∈ ([] : List Id)) (· ∈ ([] : List Id))
         ((l.cleanL fun a => (base.map (·.id)).contains a).cleanT fun a => ([] : List Id).contains a)
         (((l.cleanL fun a => (base.map (·.id)).contains a).cleanT fun a => ([] : List Id).contains a).cleanS
           fun a => ([] : List Id).contains a) :=
       LaneletFrame.cleanS (by intro a; simp) _
-        (fun a ha => contains_eq_true_iff.1 ((Lanelet.mem_cleanL_lrefs _ l).1 ha).2)
-        (fun a ha => by
-          rw [List.mem_append, Lanelet.cleanT_lights, mem_keepIn, Lanelet.mem_cleanT_stopT] at ha
-          rcases ha with h | h <;> simp at h)
-    exact LaneletFrame.trans (fun _ h => h) (fun a (h : a ∈ ([] : List Id)) => by cases h) (fun _ h => h)
-      (LaneletFrame.trans (fun _ h => h) (fun _ h => h) (fun a (h : a ∈ ([] : List Id)) => by cases h) f1 f2) f3
+    exact LaneletFrame.trans (fun _ h => h) (fun _ h => h) (fun _ h => h)
+      (LaneletFrame.trans (fun _ h => h) (fun _ h => h) (fun _ h => h) f1 f2) f3
   · intro e he; cases he
   · intro e he; cases he
   · intro i hi; cases hi
